@@ -166,6 +166,11 @@ impl KIterator {
         }
     }
 
+    /// Returns true if both values refer to the same underlying iterator
+    pub fn is_same_instance(&self, other: &Self) -> bool {
+        PtrMut::ptr_eq(&self.0, &other.0)
+    }
+
     /// Returns true if the iterator supports reversed iteration via `next_back`
     ///
     /// See [KotoIterator::is_bidirectional]
